@@ -14,14 +14,14 @@ import numpy as np
 import simworld
 from harness import execute, OracleFail, Skip, Scratch, VERIF
 from checks import common as cm
-from checks import c01, c03
+from checks import c01, c03, c06_split
 
 ID = 'C06'
 BUDGET = {'quick': 6000, 'thorough': 500000}
 WALL = {'quick': 100, 'thorough': 1500}
 CHUNK = 40
 SELFTEST = {'quick': 14, 'thorough': 200}
-REQUIRED_PROBES = ['hash_salted_names', 'hashseed_interpreters', 'plot_only_rank', 'setupSave_bcast', 'setupSave_root_nonzero', 'drawing_rank_nonzero', 'minmax_on_swapper_grid', 'kind_driver', 'arrival_order_P3_']
+REQUIRED_PROBES = ['hash_salted_names', 'hashseed_interpreters', 'plot_only_rank', 'setupSave_bcast', 'setupSave_root_nonzero', 'drawing_rank_nonzero', 'minmax_on_swapper_grid', 'kind_driver', 'kind_split', 'split_restart_without_checkpoint', 'arrival_order_P3_']
 RULE = ('case kinds (swarm-weighted): layout = LayoutHandler/LayoutSwapper construction + all-pairs '
         'transposes with layout names whose hash is salted per rank, under a systematic sweep of all '
         'P! consistent arrival orders for P <= 3 (quick) / 4 (thorough) and straggler/eager/bursty '
@@ -30,6 +30,11 @@ RULE = ('case kinds (swarm-weighted): layout = LayoutHandler/LayoutSwapper const
         'without a plot-only rank, layout walk, reductions to the drawing rank, setupSave (any root, '
         'with/without folder), DiagnosticCollector collect/reduce; hashseed = the same layout worlds '
         'in fresh interpreters under different PYTHONHASHSEED, per-rank collective traces diffed. '
+        'split = the world split (blocked / interleaved / reversed, optionally Dup) into two communicators, each '
+        'half running its own programme (set-up + reductions + setupSave + restart from a folder without and '
+        'with a checkpoint, or solver pipeline + diagnostics, or idle) on its own communicator; every collective '
+        'must stay inside the communicator handed in, and each half must return exactly what it returns in a '
+        'world of its own. '
         'Oracles: collective matching (operation, root, op, counts, datatypes), exact deadlock '
         'detection, buffer legality, identical route tables, all ranks finish or all refuse. '
         'non-trivial = P > 1 and at least one collective beyond communicator construction; distinct = '
@@ -81,12 +86,16 @@ def gen(rng, tier, idx):
         kind = 'hashseed'
     elif r < 0.006:
         kind = 'driver'
+    elif r < 0.046:
+        kind = 'split'
     elif r < 0.40:
         kind = 'layout'
     elif r < 0.70:
         kind = 'minmax'
     else:
         kind = 'setup'
+    if kind == 'split':
+        return c06_split.gen_split(rng, tier, idx, _arrival_sched)
     if kind == 'layout':
         if rng.random() < 0.6:
             c = c01.gen(rng, tier, idx)
@@ -609,6 +618,8 @@ def run(case, tape=None):
     k = case['kind']
     if k == 'driver':
         return run_driver(case, tape)
+    if k == 'split':
+        return c06_split.run_split(ID, case, tape)
     if k == 'layout':
         return run_layout(case, tape)
     if k == 'minmax':
@@ -620,6 +631,10 @@ def run(case, tape=None):
 
 def shrink(case):
     k = case['kind']
+    if k == 'split':
+        for c in c06_split.shrink_split(case):
+            yield c
+        return
     if k == 'layout' and case.get('mgr') == 'handler':
         for c in c01.shrink(case):
             yield c
